@@ -22,7 +22,7 @@ func Transpile(elkRegex string, flags bitfield.BitField8) (string, diagnostic.Di
 
 	t := &transpiler{Flags: flags}
 	t.globalFlags()
-	t.transpileNode(ast)
+	t.transpileAlternative(ast)
 	if t.Errors != nil {
 		return "", t.Errors
 	}
@@ -199,6 +199,19 @@ func (t *transpiler) transpileNode(node ast.Node) {
 	}
 }
 
+// Transpile a node that stands in place of a concatenation:
+// the whole regex, the content of a group or one side of a union.
+// The parser does not wrap a single element in a concatenation node,
+// so a lone `#` in extended mode has to be recognised here as an (empty) comment.
+func (t *transpiler) transpileAlternative(node ast.Node) {
+	if t.Flags.HasFlag(flag.ExtendedFlag) {
+		if ch, ok := node.(*ast.CharNode); ok && ch.Value == '#' {
+			return
+		}
+	}
+	t.transpileNode(node)
+}
+
 func (t *transpiler) concatenation(node *ast.ConcatenationNode) {
 	var inComment bool
 
@@ -329,7 +342,7 @@ func (t *transpiler) group(node *ast.GroupNode) {
 		if node.Regex != nil {
 			// with flags and content
 			t.Buffer.WriteRune(':')
-			t.transpileNode(node.Regex)
+			t.transpileAlternative(node.Regex)
 			t.Flags = originalFlags
 		}
 		t.Buffer.WriteRune(')')
@@ -348,7 +361,7 @@ func (t *transpiler) group(node *ast.GroupNode) {
 		t.Buffer.WriteString(`?:`)
 	}
 
-	t.transpileNode(node.Regex)
+	t.transpileAlternative(node.Regex)
 
 	if node.Regex != nil {
 		t.Flags = originalFlags
@@ -359,9 +372,9 @@ func (t *transpiler) group(node *ast.GroupNode) {
 }
 
 func (t *transpiler) union(node *ast.UnionNode) {
-	t.transpileNode(node.Left)
+	t.transpileAlternative(node.Left)
 	t.Buffer.WriteRune('|')
-	t.transpileNode(node.Right)
+	t.transpileAlternative(node.Right)
 }
 
 func (t *transpiler) charClass(node *ast.CharClassNode) {
